@@ -88,6 +88,18 @@ def collections(draw):
                 cw, ow = w(), w()
                 extra.append('{| class="wikitable"\n|-\n| [[%s|thumb|cell caption %s]] || %s\n|-\n| x || y\n|}' % (fname, cw, ow))
                 expected += [cw, ow]
+        if draw(st.integers(0, 3)) == 0:
+            # a preformatted line (leading blank) too wide for the page at the smallest font: the writer has to break it
+            lw = [w() for _ in range(draw(st.sampled_from([19, 25, 43])))]
+            extra.append(" " + " ".join(lw))
+            expected += lw
+        if draw(st.integers(0, 14)) == 0:
+            # a table cell taller than a page that cannot be split (one paragraph): the first layout pass fails and the
+            # writer's fail-safe second pass has to take over for the whole book
+            hw = [w() for _ in range(1500)]
+            cw0, cw1 = w(), w()
+            extra.append("{|\n|+ cell caption %s\n|-\n| %s || %s\n|}" % (cw0, cw1, " ".join(hw)))
+            expected += [cw0, cw1] + hw
         src = src + "\n\n" + "\n\n".join(extra) + "\n"
         if nimg and draw(st.integers(0, 2)) == 0:
             # a float block: 1-3 thumbnails directly followed by a paragraph, after 0-12 filler paragraphs (its place on the page varies)
@@ -376,6 +388,10 @@ def run_shard(ctx):
             labels.append("template-call")
         if any("== Float block ==" in a["src"] for a in case["articles"]):
             labels.append("float-block")
+        if any(re.search(r"^ wq\d+x( wq\d+x){15,}", a["src"], re.M) for a in case["articles"]):
+            labels.append("long-preformatted-line")
+        if any(len(a["expected"]) > 1400 for a in case["articles"]):
+            labels.append("cell-taller-than-a-page")
         if any(h > 250 for _, h in case.get("image_sizes", {}).values()):
             labels.append("tall-image")
         nt = bool(set(labels) & {"multi-article", "images", "template-call"})
